@@ -36,7 +36,12 @@ MANIFEST = {
             "session or while a reference is left (release_frees_only_unreferenced_client_sessions), and the release of the last reference "
             "of the client session frees it once, unlinks it from the table it lives in and raises no session-deleted event, so the peer's "
             "next datagram gets a fresh session (end_call_home_frees_and_unlinks, client_free_releases_and_unlinks; "
-            "one_new_one_del_per_session: deleted + handed = new); a Lean-verified monitor ledgerOk (ledgerOk_iff) judges the REAL allocation trace recorded through wrapped "
+            "one_new_one_del_per_session: deleted + handed = new); the application may release its call-home reference at ANY time: while "
+            "something else refers to the session nothing is freed (early_release_keeps_session, release_keeps_referenced_session), and the "
+            "LAST holder of a client session — an observation, an async entry, a queued message, an application reference, released from the "
+            "receive path, an I/O pass, an API call or the teardown — frees it once, leaves no holder pointing at it and raises no "
+            "session-deleted event (last_release_frees_client_session; no_free_while_referenced and ref_eq_holders hold over these histories); "
+            "the datagram receive path is transcribed from the fixed code (temporary reference around the dispatch); a Lean-verified monitor ledgerOk (ledgerOk_iff) judges the REAL allocation trace recorded through wrapped "
             "coap_malloc_type/free_type.  M is tied to the compiled code by exact trace equality (session->ref, last_rx_tx and the "
             "notifications each peer received, partial_read / partial_pdu / state NONE of stream sessions, after EVERY event) on generated "
             "histories from 1..50 datagram peers and 0..4 stream peers (TCP endpoint; connect, whole requests, requests cut anywhere in "
@@ -64,7 +69,9 @@ REQUIRED_THEOREMS = ["peer_session_functional_injective", "one_new_one_del_per_s
                      "partial_pdu_hangs_off_live_session", "reclaim_releases_partial_pdu", "teardown_state_empty",
                      "any_reply_ends_exchange", "delayed_send_takes_no_reference", "flush_takes_reference",
                      "call_home_takes_one_reference", "end_call_home_frees_and_unlinks", "client_free_releases_and_unlinks",
-                     "release_frees_only_unreferenced_client_sessions", "client_session_survives_pass"]
+                     "release_frees_only_unreferenced_client_sessions", "client_session_survives_pass",
+                     "last_release_frees_client_session", "release_keeps_referenced_session", "early_release_keeps_session",
+                     "end_call_home_is_release"]
 RULE = ("one line = one whole history on a fresh real server context with two UDP endpoints and one TCP endpoint: requests from 1..50 peers "
         "(peers P and P+25 share the remote address/port and differ in the local port only; groups share the remote IP or the "
         "remote port) and, in about a third of the histories, 1..4 stream peers (connect + CSM, whole requests / observe / async / "
@@ -103,13 +110,14 @@ ASSUMPTIONS = ["partial: 'nothing used after release' in the compiled C is ASan'
                "SPEC DECISION D15: 'the oldest idle one when the idle-session limit is reached' is coap_endpoint_get_session's rule "
                "(datagram endpoints); accepting a stream connection (coap_new_server_session) does no idle accounting and evicts nothing",
                "the application releases only references it holds (D14) and does not use session pointers after coap_free_context (D13)",
-               "SPEC DECISION D16: call home on datagram sessions; the application releases the reference coap_session_set_type_client gave it "
-               "when it is the last one (libcoap frees a client session inside whichever release comes last)",
+               "SPEC DECISION D16: call home on datagram sessions (the call-home reference may be released at any time since round R12c)",
+               "SPEC DECISION D17: the application passes a CLIENT session's pointer to coap_session_disconnected only while it holds a reference on it",
                "compiled Lean definitions agree with the kernel's reading of them"]
 SPEC_DECISIONS = ["D9 peer_session_functional_injective: UDP, and DTLS without connection-id re-keying",
                   "D13 'valid while the application refers to it' is scoped to the life of the context; everything-released has priority at teardown",
                   "D14 the application releases only references it holds",
-                  "D16 call home: datagram sessions; the application's call-home reference is released last",
+                  "D16 call home: datagram sessions (release of the call-home reference at any time)",
+                  "D17 coap_session_disconnected on a client session only while the application holds a reference on it",
                   "D15 the idle-session limit is enforced where sessions are created from datagrams (coap_endpoint_get_session); "
                   "accepting a stream connection neither counts nor evicts"]
 RUN_KW = {"timeout": 900, "env": {"ASAN_OPTIONS": "detect_leaks=1:abort_on_error=0:exitcode=86:allocator_may_return_null=1"}}
@@ -294,7 +302,58 @@ def gen_history(rng, big=False):
                     if toks[-1] == "F": break
                 if toks[-1] == "F": break
             continue
-        if c0 < 0.175:
+        if c0 < 0.195:
+            # D16 lifted (round R12c): the application takes the session over while an observation / an async entry / a
+            # deferred response / a queued Confirmable / a reference of its own refers to it, releases the call-home
+            # reference EARLY, and the other holders go one by one — the last one frees the client session from inside
+            # the receive path (Observe deregistration, re-registration under a new token, RST of a notification, ACK / bad
+            # ACK / RST of the queued CON), from an I/O pass (the deferred response is sent, the CON is given up), from
+            # coap_free_async / coap_session_release / coap_delete_resource, or from coap_free_context; then the peer
+            # talks again (a FRESH session)
+            t = timeout * 1000
+            hs = rng.sample(["o0", "o1", "a", "b", "q", "+", "oq"], rng.choice([1, 1, 1, 2, 2, 3, 4]))
+            if rng.random() < 0.3: toks.append("r%d" % p)
+            pre = ["h%d" % p] if rng.random() < 0.25 else []       # take over first, holders afterwards
+            toks += pre
+            for x in hs:
+                toks.append({"o0": "o%d.0" % p, "o1": "o%d.1" % p, "oq": "o%d.0.0.1" % p, "a": "a%d" % p,
+                             "b": "b%d.%d.%d" % (p, rng.choice([1, 40, 40, 2000]), rng.choice([0, 1, 5, 2000])), "q": "q%d" % p,
+                             "+": "+%d" % p}[x])
+                if x == "q" and rng.random() < 0.3 and not pre: toks.append("u%d" % p)
+            if not pre: toks.append("h%d" % p)
+            if rng.random() < 0.35 and any(x.startswith("o") for x in hs): toks += ["c%d" % rng.randrange(2), "i"]
+            if rng.random() < 0.9: toks.append("j%d" % p)
+            rel = []
+            for x in hs:
+                if x in ("o0", "o1", "oq"):
+                    k = 1 if x == "o1" else 0
+                    qq = ".0.1" if x == "oq" else ""
+                    r = rng.random()
+                    if r < 0.4: rel.append(["d%d.%d%s" % (p, k, qq)])
+                    elif r < 0.6: rel.append(["c%d" % k, "i", "t%d.0" % p])
+                    elif r < 0.7: rel.append(["o%d.%d%s" % (p, k, ".1" + qq[2:] if qq else ".1"), "d%d.%d%s" % (p, k, ".1" + qq[2:] if qq else ".1")])
+                    elif r < 0.8: rel.append(["D%d" % k])
+                    elif r < 0.9: rel.append(["d%d.%d.2%s" % (p, k, qq[2:])])       # unknown token: by cache key
+                    else: rel.append(["t%d.%d" % (p, rng.randrange(3))])
+                elif x == "a": rel.append(["f%d" % p] if rng.random() < 0.85 else [])
+                elif x == "b": rel.append(["T%d" % rng.choice([1, 40, 2000, 2001]), rng.choice(["i", "i", "r%d" % rng.choice(dpool), "I1"])])
+                elif x == "q":
+                    r = rng.random()
+                    if r < 0.5: rel.append(["g%d.%d" % (p, rng.randrange(3))] * rng.choice([1, 1, 2]))
+                    elif r < 0.75: rel.append(["k%d" % p] * rng.choice([1, 2]))
+                    else: rel.append(["T2000", "i", "T4000", "i", "T8000", "i", "T16000", "i", "T32000", "i"])
+                elif x == "+": rel.append(["-%d" % p])
+            rng.shuffle(rel)
+            for r in rel:
+                toks += r
+                if rng.random() < 0.15: toks.append(rng.choice(["i", "r%d" % p, "T%d" % t, "j%d" % p, "x%d" % p, "+%d" % p, "m1", "r%d" % rng.choice(dpool)]))
+            if rng.random() < 0.3: toks.append("j%d" % p)
+            for _ in range(rng.choice([0, 1, 1, 2])):
+                toks.append(rng.choice(["r%d" % p, "o%d.0" % p, "i", "T%d" % t, "h%d" % p, "-%d" % p, "F"]))
+                if toks[-1] == "F": break
+            if toks[-1] == "F": break
+            continue
+        if c0 < 0.215:
             # an I/O pass whose `now` the application read a little earlier (before the last datagrams were handled)
             x = rng.choice([1, 2, 5, 100, 1000, 2000, timeout * 1000, timeout * 1000 + 1])
             if rng.random() < 0.7:
@@ -414,7 +473,9 @@ def oracle(inp, impl):
                          # known from the INPUT and the session-new events alone
     nxt = 0
     prev_dq = {}
-    homed = set()        # sessions the application has taken over with coap_session_set_type_client (`h` not skipped) and not ended
+    homed = set()        # sessions the application has taken over with coap_session_set_type_client (`h` not skipped) and whose
+                         # call-home reference it still holds
+    taken = set()        # live sessions that have been taken over (type CLIENT from then on, whoever still refers to them)
     seen_handed = set()  # sessions that were freed as CLIENT sessions: no session-deleted event is due
     for k, (tok, outcome, evs, refs, idle, lv, clock, dq, cl) in enumerate(segs):
         c = tok[0]
@@ -435,7 +496,9 @@ def oracle(inp, impl):
                             i[len("!dangling"):], k, tok))
         hp = peer_of(tok) if c in "hj" else None
         h_idx = owner.get(hp) if hp is not None else None       # the peer's session when the event starts
-        j_want = h_idx is not None and h_idx in homed and prev_refs.get(h_idx, (None, 0))[0] == 1
+        j_want = h_idx is not None and h_idx in homed          # at ANY time the application holds the reference (D16 lifted)
+        if c == "j" and j_want and outcome == "ok":
+            homed.discard(h_idx)                                # released before anything else happens in the event
         runs_pass = c in "irodaktgybInpez" and not outcome.startswith("skip")
         creator = peer_of(tok) if c in "rodaktgybnpez" else None
         stream = creator is not None and creator >= 50
@@ -471,22 +534,30 @@ def oracle(inp, impl):
                 if owner_then is None: owner_then = dict(owner)
             elif kind == "X":
                 # the session object was freed without a session-deleted event: only the release of the LAST reference of
-                # a session the application had turned into a client session does that (coap_session_release, `j`)
+                # a session the application had turned into a client session does that — the application's own
+                # coap_session_release (`j`, `-`), or, once the application has let go, whichever holder goes last
+                # (observation, async entry, queued message: from the receive path, an I/O pass, coap_free_async, …)
+                appheld = idx.endswith("!appref")
+                if appheld: idx = idx[: -len("!appref")]
                 if idx not in live or idx in seen_del or idx in seen_handed:
                     return "session object %s freed (event %d, %s) although it is not a live session" % (idx, k, tok)
-                if c != "j" or outcome != "ok" or idx != h_idx or idx not in homed:
-                    return ("session %s freed without a session-deleted event by an event that is not the application's release "
-                            "of the call-home session it holds (event %d, %s)" % (idx, k, tok))
-                if prev_refs.get(idx, (None, 0))[0] != 1:
+                if idx not in taken:
+                    return ("session %s freed without a session-deleted event although the application never turned it into a "
+                            "client session (event %d, %s)" % (idx, k, tok))
+                if not final and (appheld or idx in homed):
+                    return ("client session %s freed (event %d, %s) while the application still holds a reference on it" % (idx, k, tok))
+                if c == "j" and outcome == "ok" and idx == h_idx and prev_refs.get(idx, (None, 0))[0] != 1:
                     return "client session %s freed by coap_session_release while its reference count was %s (event %d, %s)" % (
                         idx, prev_refs.get(idx, (None, 0))[0], k, tok)
-                seen_handed.add(idx); homed.discard(idx)
+                if c in "T" or c in "sm" or c == "c" or c == "h" or c == "+":
+                    return "client session %s freed by an event that releases nothing (event %d, %s)" % (idx, k, tok)
+                seen_handed.add(idx); homed.discard(idx); taken.discard(idx)
                 pp = live.pop(idx)
                 if owner.get(pp) == idx: del owner[pp]
             elif kind == "D":
                 if idx == "?" or idx not in seen_new or idx in seen_del or idx in seen_handed:
                     return "session-deleted event for %s without exactly one earlier session-new (event %d, %s)" % (idx, k, tok)
-                seen_del.add(idx); dels_here.append(idx); homed.discard(idx)
+                seen_del.add(idx); dels_here.append(idx); homed.discard(idx); taken.discard(idx)
                 p = live.pop(idx)
                 if owner.get(p) == idx: del owner[p]
         # datagrams: same peer -> same live session, different peers -> different sessions
@@ -504,20 +575,25 @@ def oracle(inp, impl):
         # call home: coap_session_set_type_client succeeds exactly on a server session (then the session is a CLIENT session from
         # now on and stays in the table); the release of its last reference frees it and takes it out of the table
         if c == "h":
-            want = h_idx is not None and h_idx not in homed
+            want = h_idx is not None and h_idx not in taken
             if (outcome == "ok") != want:
                 return "coap_session_set_type_client on peer %d's session %s: outcome %s (event %d, %s)" % (hp, h_idx, outcome, k, tok)
-            if want: homed.add(h_idx)
+            if want: homed.add(h_idx); taken.add(h_idx)
         if c == "j":
             want = j_want
             if (outcome == "ok") != want:
                 return "release of the call-home reference on peer %d's session %s: outcome %s (event %d, %s)" % (hp, h_idx, outcome, k, tok)
-            if want and "X" + h_idx not in evs:
+            if want and prev_refs.get(h_idx, (None, 0))[0] == 1 and "X" + h_idx not in evs:
                 return ("the application released the last reference of client session %s but the session object was not freed "
                         "(event %d, %s)" % (h_idx, k, tok))
-        if not final and {i for i in refs if i in cl} != homed:
+        if not final and {i for i in refs if i in cl} != taken:
             return "sessions of type CLIENT %s, sessions the application has taken over %s (event %d, %s)" % (
-                sorted(cl), sorted(homed), k, tok)
+                sorted(cl), sorted(taken), k, tok)
+        # a client session is freed by the release of its last reference: none with reference count 0 is left in a table
+        if not final:
+            for i in cl:
+                if i in refs and refs[i][0] == 0:
+                    return "client session %s has reference count 0 but was not freed (event %d, %s)" % (i, k, tok)
         # references = holders, on the implementation's own numbers: every holder in this alphabet is a subscription, a
         # queued message, an async entry or a reference the application took, and each holds exactly one reference
         # (a coap_queue_t that waits in a session's delay queue is not a queued message yet: it holds no reference)
@@ -590,6 +666,29 @@ def oracle(inp, impl):
     return None
 
 
+def canon_final(line):
+    """One event can release holders of several sessions: coap_free_context (observations per resource, newest subscriber
+    first; queued messages in send-queue order; async entries newest first), coap_delete_resource (subscribers newest
+    first), an I/O pass (async entries newest first, then the send queue in deadline order).  M releases each class in
+    creation order.  The ORDER in which client sessions that lose their last holder within ONE event are freed is not
+    part of the property: every run of consecutive `X<idx>` events of a segment is compared as a set."""
+    out = []
+    for seg in line.split(" ; "):
+        w = seg.split()
+        if len(w) == 7 and w[2].count("X") > 1:
+            evs, res, run = w[2][1:].split(","), [], []
+            for e in evs + [None]:
+                if e is not None and e.startswith("X"):
+                    run.append(e)
+                else:
+                    res += sorted(run, key=lambda x: (len(x), x)); run = []
+                    if e is not None: res.append(e)
+            w[2] = "E" + ",".join(res)
+            seg = " ".join(w)
+        out.append(seg)
+    return " ; ".join(out)
+
+
 def strip_marks(s):
     return s.replace("!appref", "").replace("!ref", "")
 
@@ -603,8 +702,9 @@ def judge(ctx, c):
     why = oracle(c["input"], i)
     if why:
         return ("spec", why)
-    ie = strip_marks(i.split(" | ")[0])
+    ie = canon_final(strip_marks(i.split(" | ")[0]))
     mparts = (m or "").split(" | ")
+    mparts[0] = canon_final(mparts[0])
     if len(mparts) < 2 or mparts[1] != "ledger=ok":
         return ("tie", "model M's own ledger is not clean: %s" % (m or "")[-80:])
     if ie != mparts[0]:
